@@ -242,10 +242,10 @@ def run(ctx):
              (swp.generated, swp.distinct, swp.depth, n_sweep[0], swp.wall))
 
     mism_path = ctx.path("mismatches.ndjson")
-    rep = vlib.run_harness(binp, ["replay", cases_path, mism_path])
+    rep = vlib.run_harness(binp, ["replay", cases_path, mism_path], hang_path=mism_path + ".hang")
     ctx.note("replay: %s" % json.dumps(rep))
     smism_path = ctx.path("sweep_mismatches.ndjson")
-    srep = vlib.run_harness(binp, ["replay", sweep_path, smism_path])
+    srep = vlib.run_harness(binp, ["replay", sweep_path, smism_path], hang_path=smism_path + ".hang")
     ctx.note("replay of the sweeps: %s" % json.dumps(srep))
     gen_mism, gen_dev, planted_seen = [], [], set()
     for m in vlib.read_ndjson(mism_path) + vlib.read_ndjson(smism_path):
